@@ -84,6 +84,25 @@ def discharge(I, name, goal, kind="vc", detail=""):
     if isinstance(goal, bool):
         goal = z3.BoolVal(goal)
     neg = z3.Not(goal)
+    # tier 1: non-linear arithmetic abstracted to uninterpreted functions (sound for `unsat`)
+    ra = I.asolver.check(I.abs.ab(neg))
+    if ra == z3.unsat:
+        dt = time.time() - t0
+        STATS["solver_s"] += dt
+        STATS["abstract"] = STATS.get("abstract", 0) + 1
+        ob = Obligation(name, "unsat", "z3-5.1(py,UF-abstracted arithmetic)", int(dt * 1000), path=list(I.dec),
+                        detail=detail, kind=kind)
+        if THOROUGH and kind != "cover":
+            s = I.solver
+            smt2 = smt2_of(list(s.assertions()), neg)
+            v1, _ = cvc5_cli(smt2, 30)
+            v2, _ = z3old_cli(smt2, 30)
+            STATS["cross_checked"] += 1
+            for v in (v1, v2):
+                if v == "sat":
+                    STATS["cross_disagree"] += 1
+            CROSS.append((name, {"z3-5.1(abstracted)": "unsat", "cvc5-1.0.3": v1, "z3-4.8.12": v2}))
+        return ob
     s = I.solver
     s.push()
     s.add(neg)
